@@ -388,11 +388,76 @@ def rule_d(ctx, sa, fa, ta, acc_f, acc_t, setup, ls):
     ctx.ob(R, ls.qname, "set-up is skipped only when reuse is requested and a solver exists (flag assigned once)", len(flag) == 1, norm(flag[0].value) if flag else "", ls.node)
 
 
+def _fold_cg_options(m, f):
+    """setup_cg_solver folded path-wise on a stand-in solver object: [(decisions, options dict)] with the user's option dictionary as the
+    token LSO and the AMG preconditioner as the token PRECONDITIONER; None if it does not fold."""
+    from ..fold import Folder, Obj, Opaque, Raised, Refuse, Sym, fold_paths
+
+    def run(decide):
+        LSO = Opaque("dict", "LSO")
+        so = Obj("self", {"__class__": BASE, "options": {"linear_solver_options": LSO}, "amg_options": {"max_coarse": Opaque("int", "MAXCOARSE")},
+                          "setup_amg_options": lambda a, k: None})
+        fo = Folder(symbolic=True)
+        fo.decider = decide
+        fo.func_stack.append(f.node)
+        fo.fold_all_methods = True
+        prec = Opaque("prec", "PRECONDITIONER")
+        hier = Obj("hierarchy", {"aspreconditioner": lambda a, k: prec})
+        fo.overrides = {"pyamg.smoothed_aggregation_solver": lambda a, k: hier, "darsia.linalg.CG": lambda a, k: Obj("cg", {}), "warnings.filterwarnings": lambda a, k: None,
+                        "warnings.catch_warnings": lambda a, k: Obj("cm", {})}
+        fo.call(f.node, [so, Opaque("matrix", "MATRIX", {"shape": (Opaque("int", "NROWS"), Opaque("int", "NROWS"))})])
+        return so.fields.get("solver_options")
+    try:
+        paths = fold_paths(run, max_paths=8)
+    except Refuse:
+        return None
+    out = []
+    for log, r, err in paths:
+        if err is not None or not isinstance(r, dict):
+            return None
+        out.append((log, r))
+    return out or None
+
+
 def rule_e(ctx):
     R = "C08.e"
     ctx.rule(R, "the iterative back-ends stop on a relative criterion by default: the option dict handed to scipy's cg carries atol = "
              "linear_solver_options.get('atol', 0) -- with a non-zero default absolute tolerance a right-hand side of small norm is 'solved' "
-             "by the zero vector, while the direct back-end is homogeneous in the right-hand side")
+             "by the zero vector, while the direct back-end is homogeneous in the right-hand side; and the AMG preconditioner is part of the "
+             "options on every path")
+    from ..fold import Opaque, Sym
+    from ..terms import nf
+
+    m = ctx.model
+    f = m.method(m.cls(WAS, BASE), "setup_cg_solver")
+    sem = _fold_cg_options(m, f)
+    if sem is None:
+        return _rule_e_syntactic(ctx)
+    ctx.instance(R)
+
+    def is_get(t, key, default):
+        return isinstance(t, Sym) and t.attr == "get" and isinstance(t.recv, Opaque) and t.recv.label == "LSO" and len(t.args) == 2 and t.args[0] == key and (default is ... or t.args[1] == default)
+    for log, opts in sem:
+        where = (" on the path " + " and ".join(("" if b else "not ") + nf(c)[:40] for c, b in log)) if log else ""
+        a = opts.get("atol")
+        ctx.ob(R, f.qname, "cg: atol defaults to 0 (relative stopping only)" + where, is_get(a, "atol", 0), f"atol = {nf(a)[:80]}" if a is not None else "no atol entry", f.node,
+               evidence=a is not None and isinstance(a, (int, Sym)) and not is_get(a, "atol", 0) and (not isinstance(a, Sym) or (a.attr == "get" and len(a.args) == 2)))
+        r = opts.get("rtol")
+        ctx.ob(R, f.qname, "cg: rtol is read from the option of that name" + where, is_get(r, "rtol", ...), f"rtol = {nf(r)[:80]}" if r is not None else "no rtol entry", f.node)
+        M = opts.get("M")
+        if isinstance(M, Opaque) and M.label == "PRECONDITIONER":
+            ctx.ob(R, f.qname, "cg: the AMG preconditioner is handed to the Krylov solver" + where, True, "", f.node)
+        elif M is None:
+            ctx.ob(R, f.qname, "cg: the AMG preconditioner is handed to the Krylov solver" + where, False,
+                   f"M is None{where}: plain conjugate gradients under the fixed iteration cap do not reach the tolerance for strongly varying weights, and the wrapper drops "
+                   "scipy's convergence flag -- the unconverged iterate is returned as the solution", f.node, evidence=True)
+        else:
+            ctx.ob(R, f.qname, "cg: the AMG preconditioner is handed to the Krylov solver" + where, False, f"M = {nf(M)[:80]}: preconditioner not found", f.node)
+    ctx.floor(R, 1)
+
+
+def _rule_e_syntactic(ctx):
+    R = "C08.e"
     m = ctx.model
     f = m.method(m.cls(WAS, BASE), "setup_cg_solver")
     ctx.instance(R)
